@@ -150,7 +150,7 @@ PROPS = {
                  "thorough": [fam("call", 200000, 0), fam("call", 20000, 0, "malformed"), fam("call", 30000, 0, "gens"), fam("sig", 50000, 5), fam("hist", 40000, 0), fam("redef", 30000, 0), fam("conv", 30000, 0)]},
     },
     "C02": {
-        "claim": "Theorems: C02.refused (execution level, any oracle/behaviour/fuel: with an underivable parameter the target is never executed and the call does not succeed), C13.hopeless_reported / unsat_before_execution (graph level), C06.no_walk_panic (when every converter kept by pruning keeps all its parameter vertices the last-resort "this is a bug" error is unreachable: the refusal is the dedicated unsatisfied-argument error). Unsatisfiable calls are refused: error returned, target never run, no converter run with a missing argument, dedicated error type when every converter is satisfiable. Tied to the code by trace conformance on scenarios with a hopeless / underivable parameter (dead types, AND-unreachable converters, cycles) and the predicate evaluated on the real trace against the executable derivability fixpoint.",
+        "claim": "Theorems: C02.refused (execution level, any oracle/behaviour/fuel: with an underivable parameter the target is never executed and the call does not succeed), C13.hopeless_reported / unsat_before_execution (graph level), C06.no_walk_panic (when every converter kept by pruning keeps all its parameter vertices the last-resort this-is-a-bug error is unreachable: the refusal is the dedicated unsatisfied-argument error). Unsatisfiable calls are refused: error returned, target never run, no converter run with a missing argument, dedicated error type when every converter is satisfiable. Tied to the code by trace conformance on scenarios with a hopeless / underivable parameter (dead types, AND-unreachable converters, cycles) and the predicate evaluated on the real trace against the executable derivability fixpoint.",
         "note": "derivability is computed under the matching table of C01 (a superset of what the library can match, so the premise is conservative).",
         "theorems": ["ArgMapper.C13.hopeless_reported", "ArgMapper.C13.unsat_before_execution", "ArgMapper.C13.exact_not_listed", "ArgMapper.C02.refused", "ArgMapper.C02.refused_original_false", "ArgMapper.C06.no_walk_panic"], "facts": {"r5SkipSame": "true", "r6NameTest": "true", "publishAfterUpdate": "true", "trackReaching": "true", "takeValuedNamed": "true", "hopCopies": "true", "memoCopy": "true"},
         "rule": "call: at least one function executed, or an unsatisfied error with a converter present.",
